@@ -304,8 +304,9 @@ InstC14(h) ==
   \cup {Inst("SiteConservation", r, [site |-> s]) : s \in sites \cup (IF W <= 36 THEN 0..(W - 1) ELSE {})}
   \cup {Inst("AlphabetInfo", r, [chars |-> <<65, 97, 67, 81, 113, 78, 45, 88, 42, 85>>])}
   \cup {Inst("CharStatsSeq", r, [idx |-> s]) : s \in {-1, 0, Len(o.rows) - 1, Len(o.rows)}}
+  \cup (IF Len(o.rows) > 0 /\ W >= 1 THEN {Inst("EntropyAll", r, [rmgaps |-> b, avg |-> v]) : b \in Bools, v \in Bools} ELSE {})
   \cup (IF Len(o.rows) > 0 THEN {Inst("Entropy", r, [site |-> s, rmgaps |-> b]) : s \in sites \cup (IF W <= 36 THEN 0..(W - 1) ELSE {}), b \in Bools} ELSE {})
-  \cup (IF Len(o.rows) > 0 THEN {Inst("Pssm", r, [log |-> lg, pc |-> pc, norm |-> nm]) : lg \in Bools, pc \in {"0", "1", "0.5"}, nm \in {0, 1}} \ {Inst("Pssm", r, [log |-> TRUE, pc |-> "0", norm |-> nm]) : nm \in {0, 1}} ELSE {})
+  \cup (IF Len(o.rows) > 0 THEN {Inst("Pssm", r, [log |-> lg, pc |-> pc, norm |-> nm]) : lg \in Bools, pc \in {"0", "1", "0.5"}, nm \in {0, 1, 2, 3}} \ {Inst("Pssm", r, [log |-> TRUE, pc |-> "0", norm |-> nm]) : nm \in {0, 1, 2, 3}} ELSE {})
   \cup (IF Len(o.rows) > 0 THEN {Inst("NumGapsUnique", r, [prof |-> p]) : p \in {0, 1} \cup (IF Width(h[2]) = W THEN {2} ELSE {})} ELSE {})
   \cup (IF Len(o.rows) > 0 THEN {Inst("NumMutationsUnique", r, [prof |-> p]) : p \in {0, 1} \cup (IF Width(h[2]) = W THEN {2} ELSE {})} ELSE {})
   \cup {Inst("NumMutRef", r, [i |-> i, refi |-> j]) : i \in 0..(Len(o.rows) - 1), j \in 0..(Len(o.rows) - 1)}
